@@ -506,6 +506,8 @@ def scale_big_capacity(rng, kind, cap):
     rng.shuffle(order)
     for k in order[:cap]:
         lines.append("ins %d %d 3 %d" % (k, rng.randint(1, 90), ttl))
+    if kind == "lfuda":
+        lines.append("tick 20")     # every entry is idle for longer than the aging tick at the first eviction
     for i in range(40):
         r = rng.random()
         k = rng.randint(1, keys)
@@ -591,6 +593,22 @@ def scale_long_ranges(rng, kind, cap=80):
     return lines
 
 
+def scale_sparse_clear(rng, kind):
+    """clear() of a big, almost empty container, then use it again"""
+    cap = rng.choice([64, 128])
+    c = _scale_cfg(rng, kind, cap, 12, ttl=4000)
+    lines = [cfg_line(c)]
+    n = rng.choice([2, 3, 5, 7])
+    for k in range(1, n + 1):
+        lines.append("ins %d %d 3 0" % (k, k))
+    lines += ["era 1", "ins 1 9 3 0"] if rng.random() < 0.5 else []
+    lines += ["clear", "obs"]
+    for k in range(3, 12):
+        lines.append("ins %d %d 3 0" % (k, k + 20))
+    lines += ["clear", "ins 2 5 3 0", "find 2 0", "destroy"]
+    return lines
+
+
 def scale_batch(rng, kinds, tier):
     """executions of the scale batch for the given kinds (a few per kind in the quick tier)"""
     out = []
@@ -604,4 +622,6 @@ def scale_batch(rng, kinds, tier):
                 out.append(scale_mass_expiry(rng, kind, rng.choice([140] if tier == "quick" else [140, 270])))
             if kind in DETERMINISTIC_RANGE_KINDS:
                 out.append(scale_long_ranges(rng, kind))
+            if kind in ("utlru", "utmap"):
+                out.append(scale_sparse_clear(rng, kind))
     return out
